@@ -98,7 +98,8 @@ CHECKS["C04"] = dict(
     rule="rapid-generated histories (<=50 steps, 7 events of 3 types, clocks 1..8); non-trivial = >=3 replicas touched, >=1 tie or backwards clock and >=1 "
          "re-deliverable (encoded) payload shipped; distinct = distinct case value.",
     assumptions=["tombstone expiry (6 h TTL in the durable store) is outside the explored time span"],
-    legs=[dict(name="convergence", test="^TestConvergence$", quick=dict(n=4000, procs=4, timeout=300), thorough=dict(n=250000, procs=14, timeout=2400))],
+    legs=[dict(name="convergence", test="^TestConvergence$", quick=dict(n=4000, procs=4, timeout=300), thorough=dict(n=250000, procs=14, timeout=2400)),
+          dict(name="concurrent-replica", test="^TestReplicaUnderConcurrency$", quick=dict(n=1500, procs=4, timeout=300), thorough=dict(n=100000, procs=12, timeout=2400))],
 )
 
 CHECKS["C13"] = dict(
@@ -196,6 +197,7 @@ CHECKS["C11"] = dict(
     rule="rapid-generated requests; non-trivial = a key was issued from a master, or the request asks for permissions the parent lacks, or a refusal caused by a "
          "parent defect with a well-formed channel; distinct = distinct case value.",
     legs=[dict(name="keygen", test="^(TestProbeTTLUnderflow|TestKeygen)$", quick=dict(n=15000, procs=3, timeout=300), thorough=dict(n=4000000, procs=12, timeout=3000)),
+          dict(name="history", test="^TestKeyHistory$", quick=dict(n=600, procs=3, timeout=300), thorough=dict(n=60000, procs=12, timeout=3000)),
           dict(name="extendable", test="^TestExtendableUnusable$", kind="plain", quick=dict(n=1, procs=1, timeout=300), thorough=dict(n=1, procs=1, timeout=300))],
 )
 
@@ -230,6 +232,7 @@ CHECKS["C19"] = dict(
     rule="rapid cases + stress rounds; non-trivial = frame of >=2 messages or a large payload/ttl, >=2 time steps, a frame that splits into >=2 chunks, a peer round with "
          ">=2 concurrent senders; distinct = distinct case value.",
     legs=[dict(name="codec", test="^TestCodec$", quick=dict(n=6000, procs=2, timeout=300), thorough=dict(n=1500000, procs=8, timeout=3000)),
+          dict(name="codec-concurrent", test="^TestCodecConcurrent$", kind="plain", quick=dict(n=10, procs=1, timeout=300), thorough=dict(n=400, procs=2, timeout=1200)),
           dict(name="ids", test="^TestIDs$", quick=dict(n=10000, procs=1, timeout=300), thorough=dict(n=3000000, procs=4, timeout=3000)),
           dict(name="ids-concurrent", test="^TestIDsDistinctConcurrent$", kind="plain", quick=dict(n=3, procs=1, timeout=300), thorough=dict(n=60, procs=2, timeout=1200)),
           dict(name="split", test="^TestSplit$", quick=dict(n=20000, procs=1, timeout=300), thorough=dict(n=4000000, procs=4, timeout=3000)),
